@@ -1,32 +1,51 @@
 /-
 C14  Corrupted log and table bytes are never served as valid data.
 
-What is proved here (all unbounded: every message, every record, every position):
-* `C14_crc_single_bit` — inverting any one bit of any message changes its CRC-32C (bitwise
-  model `Wal/Crc.lean`, tied to Go's `hash/crc32` Castagnoli by the correspondence run).
-  Proof: the LFSR step is GF(2)-linear and injective (top bit of the polynomial is set).
-* `C14_wal_body_partial`, `C14_wal_crcfield_partial` — a single-bit flip in the type byte, the
-  payload, or the stored CRC of any record of a WAL segment: replay of that segment delivers
-  exactly the records before it and reports a checksum error; the corrupted record is never
-  delivered, nor anything after it.
-* `C14_wal_intact` — the same segment without the flip delivers the record (non-vacuity).
-* `C14_entry_slice_partial` — `kv.DecodeValueSlice` (the reader behind `vlog.Manager.ReadValue`):
-  a valid entry with one bit inverted anywhere behind its varint header (key, value, stored
-  CRC) decodes to `ErrBadChecksum`, never to a value.
+FULL-STRENGTH STATEMENT the property demands (WAL / value-log part): for EVERY record (any type,
+any payload length) and EVERY single-bit flip position in its encoding — length field, type
+byte, payload, stored CRC — the decoder never returns, as valid, a (type, payload) different
+from the original: it returns an error or a torn/absent verdict.
 
-NOT proved (named `_partial` for that reason; see props/C14.json `assumptions`):
-* flips inside the 4-byte length header of a WAL record and inside the varint header of a
-  value-log entry (lengths change, the CRC-covered region moves; a 2^-32 collision cannot be
-  excluded for all contents): bounded exploration only (every bit of small real files);
-* the stream decoder of value-log entries (`kv.DecodeEntryFrom` / `EntryIterator`, used by
-  `vlog.Manager.Iterate`): the model `Wal/Entry.lean` is validated bit-for-bit against the real
-  decoder and real vlog files by the correspondence run, and `C14_crc_single_bit` bears on it,
-  but the lifted theorem is written only for the slice decoder (`C14_entry_slice_partial`);
-* SST data blocks / index checksum (`lsm/table.go`, `file/sstable_linux.go`): not covered.
+What is proved (all unbounded: every message length, every record, every position):
+* `C14_crc_single_bit` / `C14_crc_single_byte` / `C14_crc_affine` / `C14_crc_unit_error` — the
+  property of CRC-32C everything rests on, about the bitwise model `Wal/Crc.lean` (tied to Go's
+  `hash/crc32` Castagnoli by the correspondence run): the checksum is affine over GF(2)
+  (`crc (a ⊕ b) = crc a ⊕ crc b ⊕ crc 0` for equal lengths), the LFSR step is injective (the
+  polynomial's top bit is set, i.e. multiplying by x modulo the polynomial is invertible), hence
+  a one-bit (indeed any one-byte) difference anywhere in a message of any length changes the CRC.
+* `C14_wal_flip_outside_length` (headline) — EVERY record, EVERY bit position of its encoding
+  outside the 4-byte length field (type byte, payload, stored CRC), anywhere in a segment, whatever
+  follows: replay delivers exactly the records before it and reports a checksum error.
+  (`C14_wal_body_partial`, `C14_wal_crcfield_partial` are its two halves, now kind `lemma`.)
+* `C14_wal_lenflip_partial` + `C14_wal_lenflip_last_up` — the length field (framing argument):
+  a flipped length L' always differs from L; the record is then rejected (empty / torn / bad
+  checksum: nothing of it nor anything behind it is delivered) UNLESS the 4 bytes found at the
+  shifted CRC position equal the CRC-32C of the shifted body.  For the newest record of a segment
+  and a bit that was 0 (L' > L) the verdict is always "torn" (absent).
+* `C14_fails_wal_lenflip_collision`, `C14_fails_vlog_lenflip_collision` — THE FULL STATEMENT IS
+  FALSE for length fields, and not only with probability 2^-32: payload bytes are caller-chosen,
+  so the collision is constructible.  One WAL record (type 1, payload a016d052 00000000) whose
+  length byte 09 flips to 01 is replayed as the never-written record (1, empty); one value-log
+  entry whose vlen byte 0c flips to 04 is read back by `DecodeValueSlice` (= `ReadValue`) as the
+  4-byte value 11223344 instead of its 12 bytes.  Both reproduced on the real code
+  (`corpus/C14/finding-*-len-flip-collision.ops`); finding `len-flip-collision`.
+* `C14_entry_slice_partial`, `C14_entry_stream_partial` — value-log entry records, both decoders
+  (`DecodeValueSlice` behind `ReadValue`; `DecodeEntryFrom` behind `EntryIterator`/`Iterate`):
+  a valid entry with one bit inverted anywhere behind its varint header (key, value, stored CRC)
+  is rejected with `ErrBadChecksum`.
+
+NOT proved / exact missing piece (see props/C14.json `assumptions`):
+* length-field flips when the collision predicate holds: false, see above (open finding; a
+  repair means covering the length by a checksum, an on-disk format change);
+* flips inside the varint header of a value-log entry (klen, vlen, meta, expiresAt): same
+  framing situation (`C14_fails_vlog_lenflip_collision`); meta/expiresAt flips that keep the
+  varint boundaries are CRC-covered but the lifted theorem is not written: bounded exploration;
+* SST data blocks / index checksum: separate sub-check C14_sst (not in this file).
 -/
 import NoKVModel.Wal.FlipLemmas
 import NoKVModel.Wal.ManagerLemmas
 import NoKVModel.Wal.EntryLemmas
+import NoKVModel.Wal.CrcLemmas
 
 namespace NoKV.Props.C14
 open NoKV NoKV.Wal
@@ -45,6 +64,18 @@ theorem C14_crc_single_bit (msg : Bytes) (hb : ∀ x ∈ msg, x < 256) (bit : Na
   rw [hf, he]
   exact crc32c_subst pre suf h1 hx h2
 
+/-- **CRC-32C is affine over GF(2)**: `crc (a ⊕ b) = crc a ⊕ crc b ⊕ crc (0…0)` for messages of
+equal (arbitrary) length. -/
+theorem C14_crc_affine (a b : Bytes) (h : a.length = b.length) :
+    crc32c (xorBytes a b) = crc32c a ^^^ crc32c b ^^^ crc32c (List.replicate a.length 0) :=
+  crc32c_affine a b h
+
+/-- the error polynomial of a single bit is never a multiple of the generator: one set bit
+followed/preceded by any number of zero bytes never has the checksum of the all-zero message -/
+theorem C14_crc_unit_error (n bit : Nat) (hbit : bit / 8 < n) :
+    crc32c (flipBitAt (List.replicate n 0) bit) ≠ crc32c (List.replicate n 0) :=
+  C14_crc_single_bit (List.replicate n 0) (by intro x hx; simp at hx; omega) bit (by simpa using hbit)
+
 theorem replaySeg_badcrc (c : WalCfg) (id : Nat) (pre : List Rec) (hpre : ∀ r ∈ pre, RecOK r) (tail : Bytes)
     (h : decodeOne c crc32c tail = .err .badcrc) :
     replaySeg c crc32c ⟨id, encodeAll crc32c pre ++ tail⟩ = (pre, .badcrc) := by
@@ -53,7 +84,9 @@ theorem replaySeg_badcrc (c : WalCfg) (id : Nat) (pre : List Rec) (hpre : ∀ r 
   rw [scan_encodeAll c crc32c 8 pre tail hpre, scan_of_err c crc32c 8 tail .badcrc h]
   simp [Status.ofErr]
 
-/-- **Flip in the CRC-covered bytes (type byte or payload) of a WAL record.**  Segment =
+/-- (kind `lemma`; superseded by `C14_wal_flip_outside_length`, which states both halves on the
+flat encoding at any position of a segment.)
+**Flip in the CRC-covered bytes (type byte or payload) of a WAL record.**  Segment =
 complete records `pre`, then record `r` with one bit of its type+payload bytes inverted, then
 anything.  Replay of the segment: exactly `pre`, then a checksum error. -/
 theorem C14_wal_body_partial (c : WalCfg) (hc : c.CrcGood) (id : Nat) (pre : List Rec) (hpre : ∀ r ∈ pre, RecOK r)
@@ -74,7 +107,8 @@ theorem C14_wal_body_partial (c : WalCfg) (hc : c.CrcGood) (id : Nat) (pre : Lis
   rw [rd32_be32, Nat.mod_eq_of_lt (crc32c_lt _), Nat.mod_eq_of_lt (crc32c_lt _)]
   exact fun h => hne h.symm
 
-/-- **Flip in the stored CRC of a WAL record.** -/
+/-- (kind `lemma`; superseded by `C14_wal_flip_outside_length`.)
+**Flip in the stored CRC of a WAL record.** -/
 theorem C14_wal_crcfield_partial (c : WalCfg) (hc : c.CrcGood) (id : Nat) (pre : List Rec) (hpre : ∀ r ∈ pre, RecOK r)
     (r : Rec) (hr : RecOK r) (bit : Nat) (hbit : bit / 8 < 4) (rest : Bytes) :
     replaySeg c crc32c ⟨id, encodeAll crc32c pre ++
@@ -96,6 +130,146 @@ theorem C14_wal_crcfield_partial (c : WalCfg) (hc : c.CrcGood) (id : Nat) (pre :
   have hv : rd32 (be32 (crc32c (body r))) = crc32c (body r) % 4294967296 := rd32_be32 _
   rw [← hv, hf, he]
   exact rd32_subst p s _ _ h2
+
+/-- **Every flip outside the length field.**  Segment = complete records `pre`, then the encoding of
+ANY record `r`, then anything.  Invert ANY bit of the segment that lies in `r`'s type byte,
+payload or stored CRC (positions `4 ≤ byte < encLen r` of its encoding).  Replay delivers exactly
+`pre` and reports a checksum error: the corrupted record is never delivered, nor anything behind it. -/
+theorem C14_wal_flip_outside_length (c : WalCfg) (hc : c.CrcGood) (id : Nat) (pre : List Rec)
+    (hpre : ∀ r ∈ pre, RecOK r) (r : Rec) (hr : RecOK r) (hb : ∀ x ∈ body r, x < 256) (rest : Bytes) (bit : Nat)
+    (h1 : 8 * ((encodeAll crc32c pre).length + 4) ≤ bit)
+    (h2 : bit < 8 * ((encodeAll crc32c pre).length + encLen r)) :
+    replaySeg c crc32c ⟨id, flipBitAt (encodeAll crc32c pre ++ (encode crc32c r ++ rest)) bit⟩ = (pre, .badcrc) := by
+  have hbl : (body r).length = r.payload.length + 1 := by simp [body]
+  unfold encLen at h2
+  rw [flipBitAt_append_right _ _ bit (by omega)]
+  have e1 : encode crc32c r ++ rest
+      = be32 (r.payload.length + 1) ++ ((body r ++ be32 (crc32c (body r))) ++ rest) := by
+    simp [encode]
+  rw [e1, flipBitAt_append_right _ _ _ (by rw [be32_length]; omega), be32_length]
+  by_cases hcase : (bit - 8 * (encodeAll crc32c pre).length - 8 * 4) / 8 < (body r).length
+  · rw [flipBitAt_append_left _ _ _ (by rw [List.length_append]; omega),
+      flipBitAt_append_left _ _ _ hcase]
+    have := C14_wal_body_partial c hc id pre hpre r hr hb _ hcase rest
+    simpa [List.append_assoc] using this
+  · rw [flipBitAt_append_left _ _ _ (by rw [List.length_append, be32_length]; omega),
+      flipBitAt_append_right _ _ _ (by omega)]
+    have := C14_wal_crcfield_partial c hc id pre hpre r hr
+      (bit - 8 * (encodeAll crc32c pre).length - 8 * 4 - 8 * (body r).length) (by omega) rest
+    simpa [List.append_assoc] using this
+
+theorem replaySeg_err_fst (c : WalCfg) (id : Nat) (pre : List Rec) (hpre : ∀ r ∈ pre, RecOK r) (tail : Bytes)
+    (e : DErr) (h : decodeOne c crc32c tail = .err e) :
+    (replaySeg c crc32c ⟨id, encodeAll crc32c pre ++ tail⟩).1 = pre := by
+  unfold replaySeg
+  simp only
+  rw [scan_encodeAll c crc32c 8 pre tail hpre, scan_of_err c crc32c 8 tail e h]
+  split <;> simp
+
+/-
+FULL-STRENGTH STATEMENT for the length field: "for every record and every bit of its 4-byte length,
+replay never delivers a record different from the original".  That statement is FALSE
+(`C14_fails_wal_lenflip_collision`).  What holds for every record, every bit, every continuation
+of the segment is the framing dichotomy below; the exact missing piece is the second disjunct
+(the shifted frame's CRC check passing), which depends on the payload / following bytes and is
+satisfiable.
+-/
+
+/-- **Flip in the length field (framing argument).**  `tail` = the record's type+payload, its
+stored CRC and whatever follows in the segment.  With any bit of the length field inverted the
+denoted length `L'` differs from the true one, and either replay delivers exactly `pre` (the
+record is rejected as empty, torn or corrupt, and nothing behind it is delivered), or the
+segment is long enough for the shifted frame and the 4 bytes at its CRC position equal the
+CRC-32C of its `L'` body bytes. -/
+theorem C14_wal_lenflip_partial (c : WalCfg) (id : Nat) (pre : List Rec) (hpre : ∀ r ∈ pre, RecOK r)
+    (r : Rec) (hr : RecOK r) (rest : Bytes) (bit : Nat) (hbit : bit / 8 < 4) :
+    let tail := body r ++ (be32 (crc32c (body r)) ++ rest)
+    let L' := rd32 (flipBitAt (be32 (r.payload.length + 1)) bit)
+    L' ≠ r.payload.length + 1 ∧
+    ((replaySeg c crc32c ⟨id, encodeAll crc32c pre ++ (flipBitAt (be32 (r.payload.length + 1)) bit ++ tail)⟩).1 = pre
+      ∨ (L' ≠ 0 ∧ L' + 4 ≤ tail.length ∧
+          (c.crcChecked = true → rd32 ((tail.drop L').take 4) = crc32c (tail.take L')))) := by
+  intro tail L'
+  refine ⟨rd32_flip_ne _ bit hbit hr, ?_⟩
+  have hh : (flipBitAt (be32 (r.payload.length + 1)) bit).length = 4 := by
+    rw [flipBitAt_length, be32_length]
+  have hd := decodeOne_hdr c crc32c _ tail hh
+  by_cases h0 : L' = 0
+  · left
+    apply replaySeg_err_fst c id pre hpre _ .empty
+    rw [hd, if_pos h0]
+  · by_cases h1 : tail.length < L'
+    · left
+      apply replaySeg_err_fst c id pre hpre _ .part
+      rw [hd, if_neg h0, if_pos h1]
+    · by_cases h2 : (tail.drop L').length < 4
+      · left
+        apply replaySeg_err_fst c id pre hpre _ .part
+        rw [hd, if_neg h0, if_neg h1, if_pos h2]
+      · by_cases h3 : c.crcChecked ∧ rd32 ((tail.drop L').take 4) ≠ crc32c (tail.take L') % 4294967296
+        · left
+          apply replaySeg_err_fst c id pre hpre _ .badcrc
+          rw [hd, if_neg h0, if_neg h1, if_neg h2, if_pos h3]
+        · right
+          refine ⟨h0, ?_, ?_⟩
+          · rw [List.length_drop] at h2; omega
+          · intro hcc
+            rw [Nat.mod_eq_of_lt (crc32c_lt _)] at h3
+            by_cases he : rd32 ((tail.drop L').take 4) = crc32c (tail.take L')
+            · exact he
+            · exact absurd ⟨hcc, he⟩ h3
+
+/-- **Length flip on the newest record, bit was 0.**  If `r` is the last record of the segment and
+the inverted bit makes the length larger, the frame runs past the end of the file: replay
+delivers exactly `pre`, status ok — the record is treated as torn (absent). -/
+theorem C14_wal_lenflip_last_up (c : WalCfg) (hc : c.ReplayGood) (id : Nat) (pre : List Rec)
+    (hpre : ∀ r ∈ pre, RecOK r) (r : Rec) (bit : Nat)
+    (hup : r.payload.length + 1 < rd32 (flipBitAt (be32 (r.payload.length + 1)) bit)) :
+    replaySeg c crc32c ⟨id, encodeAll crc32c pre ++
+        (flipBitAt (be32 (r.payload.length + 1)) bit ++ (body r ++ (be32 (crc32c (body r)) ++ [])))⟩
+      = (pre, .ok) := by
+  have hh : (flipBitAt (be32 (r.payload.length + 1)) bit).length = 4 := by
+    rw [flipBitAt_length, be32_length]
+  have hd := decodeOne_hdr c crc32c _ (body r ++ (be32 (crc32c (body r)) ++ [])) hh
+  have hl : (body r ++ (be32 (crc32c (body r)) ++ [])).length = r.payload.length + 1 + 4 := by
+    simp [body, be32_length]
+  have herr : decodeOne c crc32c (flipBitAt (be32 (r.payload.length + 1)) bit ++
+      (body r ++ (be32 (crc32c (body r)) ++ []))) = .err .part := by
+    rw [hd, if_neg (by omega)]
+    by_cases h1 : (body r ++ (be32 (crc32c (body r)) ++ [])).length
+        < rd32 (flipBitAt (be32 (r.payload.length + 1)) bit)
+    · rw [if_pos h1]
+    · rw [if_neg h1, if_pos (by rw [List.length_drop, hl]; omega)]
+  unfold replaySeg
+  simp only
+  rw [scan_encodeAll c crc32c 8 pre _ hpre, scan_of_err c crc32c 8 _ .part herr]
+  unfold WalCfg.ReplayGood at hc
+  simp [hc]
+
+/-- **The full statement fails for the length field (WAL).**  Record (type 1, payload
+a016d052 00000000); a016d052 is the CRC-32C of the byte 01.  Bit 27 of the encoding (bit 3 of the
+last length byte: 09 → 01) inverted: replay delivers the record (1, empty), which was never
+written.  Same witness as `corpus/C14/finding-wal-len-flip-collision.ops` (real code agrees). -/
+theorem C14_fails_wal_lenflip_collision (c : WalCfg) (hc : c = WalCfg.good) :
+    (replaySeg c crc32c ⟨1, flipBitAt (encode crc32c ⟨1, [0xa0, 0x16, 0xd0, 0x52, 0, 0, 0, 0]⟩) 27⟩).1
+      = [⟨1, []⟩]
+    ∧ (replaySeg c crc32c ⟨1, encode crc32c ⟨1, [0xa0, 0x16, 0xd0, 0x52, 0, 0, 0, 0]⟩⟩)
+      = ([⟨1, [0xa0, 0x16, 0xd0, 0x52, 0, 0, 0, 0]⟩], .ok) := by
+  subst hc
+  decide +kernel
+
+/-- **…and for the value-length varint of a value-log entry.**  Entry key 6b, value
+11223344 a729da3f 00000000 (a729da3f = CRC-32C of 01 04 00 00 6b 11223344).  Bit 11 (bit 3 of the
+vlen byte: 0c → 04) inverted: `DecodeValueSlice` returns the value 11223344 as valid.
+Same witness as `corpus/C14/finding-vlog-len-flip-collision.ops` (real `vlog.Manager.ReadValue` agrees). -/
+theorem C14_fails_vlog_lenflip_collision :
+    decodeSlice EntCfg.good crc32c
+        (flipBitAt (encodeEntry ⟨[0x6b], [0x11, 0x22, 0x33, 0x44, 0xa7, 0x29, 0xda, 0x3f, 0, 0, 0, 0], 0, 0⟩ crc32c) 11)
+      = .ok [0x11, 0x22, 0x33, 0x44] ⟨1, 4, 0, 0⟩
+    ∧ decodeSlice EntCfg.good crc32c
+        (encodeEntry ⟨[0x6b], [0x11, 0x22, 0x33, 0x44, 0xa7, 0x29, 0xda, 0x3f, 0, 0, 0, 0], 0, 0⟩ crc32c)
+      = .ok [0x11, 0x22, 0x33, 0x44, 0xa7, 0x29, 0xda, 0x3f, 0, 0, 0, 0] ⟨1, 12, 0, 0⟩ := by
+  decide +kernel
 
 /-- the same segment without a flip delivers `r` (so the two theorems above are about a record
 that *would* have been served) -/
@@ -127,6 +301,29 @@ theorem C14_entry_slice_partial (ec : EntCfg) (hc : ec.Good) (a s : Bytes) (x k 
     decodeSlice ec crc32c (a ++ flipByte x k :: s) = .err .badcrc := by
   obtain ⟨h1, h2⟩ := flipByte_spec x hx k hk
   exact decodeSlice_subst ec hc.1 a s x (flipByte x k) hx h1 (fun e => h2 e.symm) h idx v hd hidx hpos hvalid
+
+/-
+FULL-STRENGTH STATEMENT for entry records: every bit of the encoding, including the varint header.
+`C14_entry_slice_partial` / `C14_entry_stream_partial` cover every position behind the header
+(key, value, stored CRC) for both decoders.  Lacking: header positions — for klen/vlen the full
+statement is false (`C14_fails_vlog_lenflip_collision`); for meta/expiresAt flips that keep the
+varint boundaries the CRC argument applies but the theorem is not written (exploration only).
+-/
+
+/-- **Flip behind the header of a value-log entry, stream decoder** (`DecodeEntryFrom`, the
+decoder of `EntryIterator` / `vlog.Manager.Iterate` / `sanitizeValueLog`).  Same hypotheses as
+`C14_entry_slice_partial`; the iterator positioned at the entry delivers nothing and stops with
+`ErrBadChecksum`. -/
+theorem C14_entry_stream_partial (ec : EntCfg) (hc : ec.Good) (a s : Bytes) (x k : Nat) (hx : x < 256) (hk : k < 8)
+    (h : EHdr) (idx : Nat) (e : Entry) (n : Nat) (rest : Bytes)
+    (hd : decodeHdr (a ++ x :: s) = .ok h idx) (hidx : idx ≤ a.length)
+    (hpos : a.length < idx + h.klen + h.vlen + 4)
+    (hvalid : decodeStream ec crc32c (a ++ x :: s) = .ok e n rest) :
+    decodeStream ec crc32c (a ++ flipByte x k :: s) = .err .badcrc ∧
+      iterEntries ec crc32c (a ++ flipByte x k :: s) = ([], .badcrc) := by
+  obtain ⟨h1, h2⟩ := flipByte_spec x hx k hk
+  have := decodeStream_subst ec hc.2 a s x (flipByte x k) hx h1 (fun e => h2 e.symm) h idx e n rest hd hidx hpos hvalid
+  exact ⟨this, iterEntries_of_err ec crc32c _ _ this⟩
 
 /-! ### non-vacuity -/
 
